@@ -262,24 +262,24 @@ func main() {
 	ncorpus := len(cases)
 
 	// ---- generated
-	seedsPer := run.N(2, 12)
-	mutPer := run.N(2, 15)
-	maxBound := run.N(16, 200)
+	seedsPer := run.N(2, 6)
+	mutPer := run.N(2, 5)
+	maxBound := run.N(16, 40)
 	for di := range decs {
 		d := &decs[di]
 		n := seedsPer
 		if d.ID == 1 {
-			n = run.N(30, 400)
+			n = run.N(30, 200)
 		}
 		if d.ID == 11 {
-			n = run.N(6, 100)
+			n = run.N(6, 40)
 		}
 		if d.ID >= 100 && d.ID < 200 && len(d.Ctx) > 0 && d.Ctx[0] > 1 {
 			n = (n + 1) / 2
 		}
 		for s := 0; s < n; s++ {
 			seed := d.Seed(rng)
-			if seed == nil || len(seed) > run.N(1200, 6000) {
+			if seed == nil || len(seed) > run.N(1200, 3000) {
 				continue
 			}
 			si := add(di, seed, "seed")
@@ -332,7 +332,7 @@ func main() {
 				mut(si, seed, len(seed), 0, rng.Bytes(1+rng.Intn(5)), "extended")
 			}
 		}
-		for s := 0; s < run.N(2, 30); s++ {
+		for s := 0; s < run.N(2, 20); s++ {
 			add(di, rng.Bytes(rng.Intn(60)), "random")
 		}
 	}
@@ -361,7 +361,7 @@ func main() {
 		}
 		return bytes.Count(b, []byte{'\n'})
 	}
-	for done < len(cases) && crashes < 200 {
+	for done < len(cases) && crashes < 60 {
 		cmd := exec.Command(os.Args[0], "--child", inPath, outPath, fmt.Sprint(done))
 		cmd.Stderr = nil
 		if err := cmd.Start(); err != nil {
@@ -470,6 +470,16 @@ func main() {
 			st.Sample(map[string]interface{}{"decoder": d.Name, "kind": c.Kind, "input_hex": c.Input, "outcome": o.Outcome, "alloc": o.Alloc})
 		}
 	}
+	// ---- static tie: allocation sites and discarded decode errors in the source
+	unexpected, sitesSeen, nfiles := scanRepo(run.Repo)
+	for _, u := range unexpected {
+		st.Fail("static:"+u.Func, "decoder source: "+u.What, map[string]interface{}{"func": u.Func, "pos": relPos(run.Repo, u.Pos)})
+	}
+	if nfiles < 80 {
+		st.Fail("static:scan", "the decoder packages were not found under the repo", map[string]interface{}{"files": nfiles})
+	}
+	st.Extra["static_files_scanned"] = nfiles
+	st.Extra["static_nonconstant_make_sites"] = sitesSeen
 	names := []string{}
 	for n := range covered {
 		names = append(names, n)
